@@ -158,6 +158,21 @@ def run(case):
             if fh.read() != text1:
                 early.append("saving the same textgrid a second time wrote a different file")
         out = {"text": text1 if fmt in ("short_textgrid", "long_textgrid") else None}
+        if fmt == "json":
+            # the two dictionary conversions behind the plain json format, on this textgrid's own dictionary
+            from praatio.data_classes.textgrid import _tgToDictionary
+            rank = {float(v): k for k, v in enumerate(vals)}
+
+            def ents(es):
+                return [[rank[float(x)] for x in e[:-1]] + [e[-1]] for e in es]
+            down = textgrid_io._downconvertDictionaryForJson(_tgToDictionary(tg))
+            up = textgrid_io._upconvertDictionaryFromJson(down)
+            out["jsonconv"] = {
+                "down": {"start": rank[float(down["start"])], "end": rank[float(down["end"])],
+                         "tiers": [[nm, t["type"] == "IntervalTier", ents(t["entries"])] for nm, t in down["tiers"].items()]},
+                "up": {"xmin": rank[float(up["xmin"])], "xmax": rank[float(up["xmax"])],
+                       "tiers": [{"isint": t["class"] == "IntervalTier", "name": t["name"], "xmin": rank[float(t["xmin"])],
+                                  "xmax": rank[float(t["xmax"])], "entries": ents(t["entries"])} for t in up["tiers"]]}}
         # what the text reader returns for this text (dictionary level)
         if out["text"] is not None:
             try:
@@ -232,6 +247,12 @@ def emit(case, r):
 
 def emit_multi(case, r):
     """Several Coq cases per input: writer text and reader dictionary."""
+    if "ok" in r and r["ok"].get("jsonconv"):
+        jc = r["ok"]["jsonconv"]
+        d = jc["down"]
+        jt = core.clist(["(%s, mkJT %s %s)" % (core.ctext(nm), core.cbool(isint), core.clist([iogen.cdentry(e) for e in es], "dentry"))
+                         for nm, isint, es in d["tiers"]], "(text * jtier)")
+        return ["JsonConvC %s (mkJTG %s %s %s) %s" % (iogen.cdtg(case["g"]), core.cz(d["start"]), core.cz(d["end"]), jt, iogen.cdtg(jc["up"]))]
     if "ok" not in r or r["ok"].get("text") is None:
         return []
     v = r["ok"]
